@@ -72,7 +72,8 @@ class SymPath:
     node: ast.AST | None = None  # the return / raise statement
 
     def calls(self, name: str | None = None, *, inlined: bool | None = None) -> list[Event]:
-        return [e for e in self.events if e.kind == "call" and (name is None or e.callee == name) and (inlined is None or e.inlined == inlined)]
+        # (a call that was folded away, e.g. getattr(x, "a") -> x.a, is no longer a call)
+        return [e for e in self.events if e.kind == "call" and isinstance(e.expr, ast.Call) and (name is None or e.callee == name) and (inlined is None or e.inlined == inlined)]
 
     def literals(self) -> list:
         """the atomic facts established on this path: (test, polarity) with `not`, true conjunctions and
@@ -350,6 +351,10 @@ class Explorer:
                 l, r = seq(e.left, _d + 1), seq(e.right, _d + 1)
                 if l is not None and r is not None:
                     return l + r
+            if isinstance(e, ast.Attribute) and e.attr == "__slots__" and isinstance(e.value, ast.Name) and e.value.id in ("self", "cls") and fi.cls is not None:
+                slots = [s_ for s_ in self.prog.all_slots(fi.cls) if not s_.startswith("__")]
+                if slots and not self.prog.subclasses(fi.cls):
+                    return [ast.Constant(value=s_) for s_ in (fi.cls.slots or slots)]
             if isinstance(e, ast.Subscript) and isinstance(e.slice, ast.Slice) and e.slice.step is None:
                 base = seq(e.value)
                 lo, hi = e.slice.lower, e.slice.upper
@@ -639,6 +644,11 @@ class Explorer:
                 for t, v in zip(target.elts, value.elts):
                     self._bind(t, v, st, fi, depth, node)
             else:
+                items = self.literal_items(value, fi) if isinstance(value, (ast.Name, ast.Attribute)) else None
+                if items is not None and len(items) == len(target.elts) and not any(isinstance(t, ast.Starred) for t in target.elts):
+                    for t, v in zip(target.elts, items):
+                        self._bind(t, v, st, fi, depth, node)
+                    return
                 for i, t in enumerate(target.elts):
                     if isinstance(t, ast.Starred):
                         self._bind(t.value, ast.Subscript(value=value, slice=ast.Slice(lower=ast.Constant(value=i), upper=None, step=None), ctx=ast.Load()), st, fi, depth, node)
@@ -699,7 +709,7 @@ class Explorer:
 
                 def then(s2, inner=inner, watched=watched):
                     for n in watched:
-                        self._emit(s2, "expr", self.subst(n, s2), None, n, fi, depth)
+                        self._emit(s2, "expr", self.subst(n, self._in_comprehension(n, s2, fi, depth)), None, n, fi, depth)
                     return inner(s2)
 
         yield from self._calls_from(calls, 0, st, fi, depth, k, then)
@@ -716,7 +726,7 @@ class Explorer:
             for part in ([n.key, n.value] if isinstance(n, ast.DictComp) else [n.elt]):
                 self._map_comprehensions(part, acc)
             return
-        if isinstance(n, ast.Call) and gens:
+        if gens and (isinstance(n, ast.Call) or (self.watch is not None and self.watch(n))):
             self._comp_of[id(n)] = gens
         for ch in ast.iter_child_nodes(n):
             self._map_comprehensions(ch, gens)
@@ -748,6 +758,14 @@ class Explorer:
                     funcs = self.prog.resolve_call(fi, c).funcs()
                 except Exception:  # noqa: BLE001
                     funcs = []
+                if len(funcs) != 1 and isinstance(c.func, ast.Name) and c.func.id in st.store and isinstance(st.store[c.func.id], ast.Name):
+                    # a local that holds a module-level function on this path (`read = _read_current`)
+                    try:
+                        hits = [h for h in self.prog.lookup(fi.module, st.store[c.func.id].id, fi.variant) if getattr(h, "kind", "") == "func"]
+                    except Exception:  # noqa: BLE001
+                        hits = []
+                    if len(hits) == 1:
+                        funcs = hits
                 if len(funcs) == 1 and funcs[0] not in self._stack and funcs[0] is not fi and self.inline(fi, c, funcs[0]):
                     targets = funcs[0]
             csub = self.subst(c, self._in_comprehension(c, st, fi, depth))
